@@ -7,7 +7,7 @@ for d in "$DIR"/seeded/${1:-C}*/; do
   [ -f "$d/meta.json" ] || continue
   prop=$(/venv/bin/python -c "import json,sys; print(json.load(open('$d/meta.json'))['breaks_property'])")
   checks=$prop
-  case "$id" in C06-3|C06-4) checks="C14";; C06-12) checks="C16";; esac
+  case "$id" in C06-3|C06-4) checks="C14";; C06-12|C07-14|C14-14) checks="C16";; C15-14) checks="C06";; esac
   out=$(MUTANT_ARGS="${REGRESS_ARGS:-}" "$DIR/tools/mutant.sh" "$d/patch.diff" $checks 2>&1)
   nv=$(echo "$out" | grep -c "^VIOLATION"); he=$(echo "$out" | grep -c "HARNESS")
   v="MISSED"; [ "$nv" -gt 0 ] && v="caught"; [ "$he" -gt 0 ] && v="HARNESS-ERROR"
